@@ -143,6 +143,7 @@ func init() {
 					res = append(res, c)
 				}
 			}
+			res = append(res, scanCandidates(env, "opb", env.Pick(30000, 500000), false, scanOPB)...)
 			return res
 		},
 		Cover: func(t core.Case, cov map[string]int) bool {
